@@ -157,6 +157,56 @@ def check_geom(law, flux, rname, mspec, idx, res=None):
     return out
 
 
+def check_shared_model(law, flux, rname, res=None):
+    """history on ONE nozzle model object: discretise it on mesh A, then on mesh B (same number of cells, other geometry), evaluate the newest
+    operator, then the older one: both carry the area-variation sources of their own mesh"""
+    A = space.SECTION_LAWS[law]
+    noz = space.euler.nozzle(A)
+    eul = space.euler.euler1d()
+    al = space.cons_alphabet("euler1d", "mild")
+    seq = [("uni", 4, 1.0, 0.0), ("ref", 4, 1.0, 2.0, 1, 1), ("uni", 4, 3.0, -1.0), ("w", (2.0, 0.5, 1.0, 1.0))]
+    discs = []
+    out = []
+
+    def judge(mesh, dn, tag):
+        de = space.modeldisc.fvm(eul, mesh, space.recon(rname), numflux=flux)
+        idx = (0, 2, 1, 3)
+        fn, fe = space.field_from_letters(noz, mesh, al, idx), space.field_from_letters(eul, mesh, al, idx)
+        with np.errstate(all="ignore"):
+            Rn = [np.asarray(r, float).copy() for r in dn.rhs(fn)]
+            Re = [np.asarray(r, float).copy() for r in de.rhs(fe)]
+        xf, xc = np.asarray(mesh.xf, float), np.asarray(mesh.xc, float)
+        geom = (A(xf[1:]) - A(xf[:-1])) / (xf[1:] - xf[:-1]) / A(xc)
+        rho, m, E = [np.asarray(d, float) for d in fn.data]
+        u = m / rho
+        p = 0.4 * (E - 0.5 * rho * u * u)
+        H = (E + p) / rho
+        want = [-geom * rho * u, -geom * rho * u * u, -geom * rho * u * H]
+        for i in range(3):
+            got = Rn[i] - Re[i]
+            sc = np.abs(want[i]) + np.abs(Re[i]) + np.abs(geom) * (rho * (np.abs(u) + 1) * (np.abs(H) + 1)) + 1e-300
+            err = (np.abs(got - want[i]) / sc).max() / EPS
+            if res is not None:
+                res.evals += 1
+            if not err <= 4 * K:
+                return [("C19/nozzle/shared-model/%s" % tag, "nozzle %s %s %s: one model object discretised on several meshes of 4 cells; on mesh faces %r the built-in source on equation %d is %r, "
+                         "definition gives %r (%s)" % (law, flux, rname, xf.tolist(), i, got.tolist(), want[i].tolist(), tag))]
+        return []
+    for k, mspec in enumerate(seq):
+        mesh = space.mesh_spec(mspec)
+        dn = space.modeldisc.fvm(noz, mesh, space.recon(rname), numflux=flux)
+        discs.append((mesh, dn))
+        out += judge(mesh, dn, "newest-discretisation")
+        if out:
+            return out
+    # the older discretisations, now that newer ones exist on the same model object
+    for mesh, dn in discs[:-1]:
+        v = judge(mesh, dn, "older-discretisation-uses-the-geometry-of-the-newest-mesh")
+        if v:
+            return v
+    return out
+
+
 def shard(arg):
     mkind, law, flux, rname = arg
     res = core.Res()
@@ -171,6 +221,10 @@ def shard(arg):
                     res.nontrivial += 1
                 for s, w in check(mkind, law, flux, rname, mspec, kinds, idx, res):
                     res.violation(s, w, {"kind": "src", "model": mkind, "law": law, "flux": flux, "recon": rname, "mesh": mspec, "kinds": list(kinds), "idx": list(idx)})
+    if mkind == "nozzle" and law != "const":
+        res.nontrivial += 1
+        for s, w in check_shared_model(law, flux, rname, res):
+            res.violation(s, w, {"kind": "shared", "law": law, "flux": flux, "recon": rname})
     if mkind == "nozzle":
         for mspec in MESHES:
             n = mspec[1] if mspec[0] in ("uni", "ref") else len(mspec[1])
@@ -200,6 +254,8 @@ def _tup(x):
 
 
 def replay(case):
+    if case["kind"] == "shared":
+        return check_shared_model(case["law"], case["flux"], case["recon"])
     if case["kind"] == "geom":
         return check_geom(case["law"], case["flux"], case["recon"], _tup(case["mesh"]), tuple(case["idx"]))
     return check(case["model"], case["law"], case["flux"], case["recon"], _tup(case["mesh"]), tuple(case["kinds"]), tuple(case["idx"]))
